@@ -58,6 +58,7 @@ func (e *Engine) expandQuantifiers(fs []*Term) []*Term {
 	done := map[string]map[int]bool{} // placeholder -> instantiated term ids
 	skdone := map[string]bool{}
 	all := append([]*Term(nil), fs...)
+	polFs := append([]*Term(nil), fs...) // formulas that determine polarities (axiom heads excluded)
 	for round := 0; round < 3; round++ {
 		// collect placeholders and candidate index terms
 		seen := map[int]bool{}
@@ -84,16 +85,26 @@ func (e *Engine) expandQuantifiers(fs []*Term) []*Term {
 		if len(qs) == 0 {
 			break
 		}
+		// polarity of every placeholder in the conjunction of all formulas
+		pol := polarities(polFs, e.quantVars)
 		var newAx []*Term
 		for _, qi := range qs {
+			pp := pol[qi.p.name]
+			needWitness := pp&polNeg != 0
+			needInst := pp&polPos != 0
+			if !qi.forall {
+				needWitness, needInst = needInst, needWitness
+			}
 			// witness
-			if !skdone[qi.p.name] {
+			if needWitness && !skdone[qi.p.name] {
 				skdone[qi.p.name] = true
 				inst := Subst(qi.body, map[string]*Term{qi.q.name: qi.sk})
 				if qi.forall {
 					newAx = append(newAx, Or(qi.p, Not(inst)))
+					polFs = append(polFs, Not(inst))
 				} else {
 					newAx = append(newAx, Or(Not(qi.p), inst))
+					polFs = append(polFs, inst)
 				}
 			}
 			d := done[qi.p.name]
@@ -102,6 +113,9 @@ func (e *Engine) expandQuantifiers(fs []*Term) []*Term {
 				done[qi.p.name] = d
 			}
 			n := 0
+			if !needInst {
+				continue
+			}
 			for id, t := range cands {
 				if d[id] || n > 400 {
 					continue
@@ -115,8 +129,10 @@ func (e *Engine) expandQuantifiers(fs []*Term) []*Term {
 				inst := Subst(qi.body, map[string]*Term{qi.q.name: t})
 				if qi.forall {
 					newAx = append(newAx, Or(Not(qi.p), inst))
+					polFs = append(polFs, inst)
 				} else {
 					newAx = append(newAx, Or(qi.p, Not(inst)))
+					polFs = append(polFs, Not(inst))
 				}
 			}
 		}
@@ -137,4 +153,68 @@ func mentions(t *Term, name string) bool {
 		}
 	})
 	return found
+}
+
+const (
+	polPos = 1
+	polNeg = 2
+)
+
+// polarities computes, for every quantifier placeholder, whether it occurs
+// positively and/or negatively in the conjunction of fs.
+func polarities(fs []*Term, qv map[string]*quantInfo) map[string]int {
+	res := map[string]int{}
+	seen := map[[2]int]bool{}
+	type item struct {
+		t *Term
+		p int
+	}
+	var stack []item
+	for _, f := range fs {
+		stack = append(stack, item{f, polPos})
+	}
+	flip := func(p int) int {
+		r := 0
+		if p&polPos != 0 {
+			r |= polNeg
+		}
+		if p&polNeg != 0 {
+			r |= polPos
+		}
+		return r
+	}
+	for len(stack) > 0 {
+		it := stack[len(stack)-1]
+		stack = stack[:len(stack)-1]
+		k := [2]int{it.t.id, it.p}
+		if seen[k] {
+			continue
+		}
+		seen[k] = true
+		t := it.t
+		switch t.op {
+		case "var":
+			if _, ok := qv[t.name]; ok {
+				res[t.name] |= it.p
+			}
+		case "not":
+			stack = append(stack, item{t.args[0], flip(it.p)})
+		case "and", "or":
+			for _, a := range t.args {
+				stack = append(stack, item{a, it.p})
+			}
+		case "ite":
+			stack = append(stack, item{t.args[0], polPos | polNeg})
+			if t.sort == BoolSort {
+				stack = append(stack, item{t.args[1], it.p}, item{t.args[2], it.p})
+			} else {
+				stack = append(stack, item{t.args[1], polPos | polNeg}, item{t.args[2], polPos | polNeg})
+			}
+		default:
+			for _, a := range t.args {
+				stack = append(stack, item{a, polPos | polNeg})
+			}
+		}
+	}
+	return res
 }
